@@ -45,22 +45,29 @@ func mustRead(src string) types.MalType {
 // canon prints a lisp value canonically: map and set keys sorted, no addresses, no fmt.
 func canon(v types.MalType) string {
 	var b strings.Builder
-	canonTo(&b, v, 0)
+	canonTo(&b, v, 0, canonErr)
 	return b.String()
 }
 
-func canonSeq(b *strings.Builder, xs []types.MalType, open, close string, depth int) {
+// canonWith is canon with a caller-supplied rendering of error values.
+func canonWith(v types.MalType, errFn func(error) string) string {
+	var b strings.Builder
+	canonTo(&b, v, 0, errFn)
+	return b.String()
+}
+
+func canonSeq(b *strings.Builder, xs []types.MalType, open, close string, depth int, errFn func(error) string) {
 	b.WriteString(open)
 	for i, x := range xs {
 		if i > 0 {
 			b.WriteByte(' ')
 		}
-		canonTo(b, x, depth+1)
+		canonTo(b, x, depth+1, errFn)
 	}
 	b.WriteString(close)
 }
 
-func canonTo(b *strings.Builder, v types.MalType, depth int) {
+func canonTo(b *strings.Builder, v types.MalType, depth int, errFn func(error) string) {
 	if depth > 200 {
 		b.WriteString("#deep")
 		return
@@ -85,9 +92,9 @@ func canonTo(b *strings.Builder, v types.MalType, depth int) {
 	case types.Symbol:
 		b.WriteString(x.Val)
 	case types.List:
-		canonSeq(b, x.Val, "(", ")", depth)
+		canonSeq(b, x.Val, "(", ")", depth, errFn)
 	case types.Vector:
-		canonSeq(b, x.Val, "[", "]", depth)
+		canonSeq(b, x.Val, "[", "]", depth, errFn)
 	case types.HashMap:
 		keys := make([]string, 0, len(x.Val))
 		for k := range x.Val {
@@ -99,9 +106,9 @@ func canonTo(b *strings.Builder, v types.MalType, depth int) {
 			if i > 0 {
 				b.WriteByte(' ')
 			}
-			canonTo(b, k, depth+1)
+			canonTo(b, k, depth+1, errFn)
 			b.WriteByte(' ')
-			canonTo(b, x.Val[k], depth+1)
+			canonTo(b, x.Val[k], depth+1, errFn)
 		}
 		b.WriteString("}")
 	case types.Set:
@@ -115,7 +122,7 @@ func canonTo(b *strings.Builder, v types.MalType, depth int) {
 			if i > 0 {
 				b.WriteByte(' ')
 			}
-			canonTo(b, k, depth+1)
+			canonTo(b, k, depth+1, errFn)
 		}
 		b.WriteString("}")
 	case types.MalFunc:
@@ -131,7 +138,7 @@ func canonTo(b *strings.Builder, v types.MalType, depth int) {
 	case *concurrent.Future:
 		b.WriteString("#future")
 	case error:
-		b.WriteString(canonErr(x))
+		b.WriteString(errFn(x))
 	default:
 		b.WriteString("#other")
 	}
